@@ -56,7 +56,7 @@ def _popts(rng, T):
 def generate(rng, tier, index):
     T = int(rng.integers(6, 17))
     faces = specgen.rand_faces(rng, kinds_pair=("periodic",), kinds_single=("pec", "pmc", "none"), pml=(2, 2))
-    shape = specgen.rand_shape(rng, 4, 8)
+    shape = specgen.fit_shape(specgen.rand_shape(rng, 4, 8), faces)
     spec = {"shape": shape, "grid": specgen.rand_grid(rng, shape, 0.4), "steps": T, "faces": faces, "key": int(rng.integers(0, 2**31))}
     spec["materials"] = {"mode": "random", "seed": int(rng.integers(0, 2**31)), "eps_tier": "iso"}
     spec["sources"] = [specgen.rand_dipole(rng, "s0", shape, specgen.inner_region(shape, faces), T, allow_switch=False)]
